@@ -32,7 +32,7 @@ impl Shape17 {
 
 pub const CAPS: [usize; 19] = [0, 1, 2, 3, 4, 5, 6, 7, 8, 9, 10, 11, 12, 13, 14, 15, 16, 17, 32];
 /// capacities around the larger thresholds (thorough tier)
-pub const CAPS_BIG: [usize; 16] = [0, 16, 31, 32, 33, 47, 63, 64, 65, 96, 127, 128, 129, 200, 255, 256];
+pub const CAPS_BIG: [usize; 18] = [0, 16, 31, 32, 33, 47, 63, 64, 65, 96, 127, 128, 129, 200, 255, 256, 257, 300];
 
 pub fn program(s: &Shape17) -> Program {
     let mut ops = vec![Op::Commit { v: ScalarSpec::Small(5), blind: ScalarSpec::Rand(3) }];
@@ -194,6 +194,13 @@ pub fn run(tier: &str, seed: u64) -> i32 {
             }
         }
     }
+    if tier != "thorough" {
+        // a few large thresholds on a rotating curve
+        let curve = Curve::ALL[(seed % 3) as usize];
+        for (n1, n2) in [(33, 0), (60, 5), (128, 0), (100, 29), (200, 30)] {
+            shapes.push(Shape17 { curve, n1, n2, closure: if n2 > 0 { 1 } else { 0 } });
+        }
+    }
     if tier == "thorough" {
         for curve in Curve::ALL {
             for (n1, n2) in [(31, 0), (32, 0), (33, 0), (20, 12), (30, 3), (63, 0), (60, 4), (64, 0), (33, 32), (65, 0), (100, 28), (127, 0), (128, 0), (129, 0)] {
@@ -201,7 +208,6 @@ pub fn run(tier: &str, seed: u64) -> i32 {
             }
         }
     }
-    let _ = seed;
     let o = enumerate("c17/grid", &shapes, &|s| s.encode(), &|s, col| dispatch(s, col));
     rep.outcome.merge(o);
     rep.outcome.exhaustive = true;
